@@ -91,6 +91,10 @@ class Inliner:
                     return self.by_id[lid]
             return None
         cands = self.helpers.get(cal)
+        if not cands and not cal and ev.get("callee_member") and caller.get("pattern") and (ev.get("recv") is None or _is_this(ev.get("recv"))):
+            # dependent call of a member of the same class template inside a pattern: resolved by name
+            rec = caller.get("qname", "").rsplit("::", 1)[0]
+            cands = [c for c in self.helpers.get(rec + "::" + ev["callee_member"], []) if c.get("pattern")]
         if not cands:
             return None
         nargs = len(ev.get("args", []))
@@ -202,6 +206,8 @@ class Inliner:
             if n >= len(args) or not p.get("name"):
                 continue
             t = str(p.get("type", "")).rstrip()
+            if t.endswith("..."):
+                continue            # parameter pack: the body keeps referring to the pack by name
             a0 = _strip(args[n])
             is_const = isinstance(a0, dict) and (a0.get("k") in ("lit", "enum") or (a0.get("k") in ("var", "mem") and "val" in a0))
             written = any(e.get("k") == "write" and _strip(e.get("lhs") or {}) and isinstance(_strip(e.get("lhs")), dict) and _strip(e["lhs"]).get("name") == p["name"]
@@ -311,6 +317,9 @@ class Inliner:
                         t_["cond"] = _walk_replace(t_["cond"], is_call, lambda n: copy.deepcopy(value))
         # handlers / tries of the caller refer to block ids that did not change; the exit block of f is unchanged
         f.setdefault("inlined", []).append({"callee": g["qname"], "loc": call.get("loc", ""), "lambda": is_lambda})
+        # lambdas written inside the spliced body now belong to the caller as well
+        f.setdefault("adopted", []).extend([h["id"] for h in self.fns if h.get("parent") == g["id"] or
+                                              (h.get("parent") in (None, -1) and h.get("qname", "").startswith(g["qname"] + "::(lambda"))] + list(g.get("adopted", [])))
         self.spliced_ids.add(g["id"])
         for other in self.helpers.get(g["qname"], []):      # every instantiation of the same source function
             self.spliced_ids.add(other["id"])
